@@ -483,6 +483,11 @@ class YamlRepresenter(ObjectRepresenter):
         Returns:
             Yaml represented as python object.
         """
+        # a new parser for each file: the parser remembers the %YAML version
+        # directive of the last document it loaded & would otherwise read and
+        # write every subsequent file by that version's rules. The dump that
+        # follows this load does use this same parser, to round-trip the file.
+        self.yaml_parser = pypyr.yaml.get_yaml_parser_roundtrip()
         return self.yaml_parser.load(file)
 
     def dump(self, file, payload):
